@@ -124,7 +124,7 @@ def ast_part(ctx):
 
 
 def run(ctx):
-    b = lib.standard_build(ctx, theorems=False)   # model half: Impl/SchemaJson.v (JSON codec on trees); theorems pending
+    b = lib.standard_build(ctx)
     if not lib.require_builds(ctx, b):
         return
     r = ctx.rng
